@@ -14,6 +14,10 @@ CHECKS = {
    technique="bounded symbolic execution of the real Go code (go/ssa -> SMT bit-vectors); z3 decides decoder-vs-grammar equivalence per path; counterexamples replayed natively",
    text="Encoders: every uint32/uint64/int32/int64/33-bit value is symbolic; the loop in encodeUint64/encodeInt64 unwinds at most 10 times and every unwinding is explored, so the claim covers all values. Decoders: every byte string of length 0..max+1 (6 bytes for 32/33-bit, 11 for 64-bit) with all bytes symbolic, for LoadUint32/LoadInt32/LoadInt64 and the io.ByteReader variants incl. DecodeInt33AsInt64; accept/reject, value and byte count are compared with a reference decoder written from the spec grammar. Right level: byte-level codecs with rare boundary inputs (5th/10th byte) are exactly where a solver beats sampling.",
    note="Trusted: the reference uN/sN decoder in the harness, go/ssa, the executor (validated per run by native replay of path models), z3 5.1.0. fmt.Errorf is an opaque non-nil error. Strings longer than max+1 bytes only add unread suffix bytes and are outside the bound."),
+ "C15": dict(engine=E1, category="model_checking", design="DESIGN.md#C15",
+   technique="bounded symbolic execution of the real Go code (go/ssa -> SMT bit-vectors) against an exact math/big oracle modelled as 128-bit bit-vectors; z3 decides each assertion; counterexamples replayed natively",
+   text="constant.BinaryOp/UnaryOp/Shift/Compare/Int64Val/Uint64Val/MakeUint64/ToInt/Sign and types.representableConst are executed symbolically with fully symbolic int64/uint64 operands for every operator token and every integer BasicKind; the assertion is that the returned Value denotes the exact mathematical result (math/big oracle) and is reported as an exact int64 iff it fits, resp. that a constant is representable iff it lies in the type's range with Wa's 32-bit int/uint. Covers all 2^128 operand pairs per operator; only the run-time half of the property (folded value = value computed by the compiled program) is left to C01.",
+   note="Trusted: math/big modelled as 128-bit two's complement (exact for one operation on <=64-bit operands; the product uses the signed-multiply overflow predicate), go/ssa, the executor (validated per run by native replay of path models with the real math/big), z3 5.1.0. Divisor != 0 assumed; float/rational/complex/string constants outside the claim."),
  # ---CHECKS-END---
 }
 NA = {
